@@ -152,13 +152,13 @@ EXPORT int snwprintf_s(wchar_t *restrict dest, rsize_t dmax,
     }
 
     if (unlikely(fmt == NULL)) {
-        *dest = L'\0';
+        if (dmax)
+            *dest = L'\0';
         handle_werror(dest, dmax, "snwprintf_s: fmt is null", ESNULLP);
         return -(ESNULLP);
     }
 
-    if (unlikely(dmax == 0)) {
-        *dest = L'\0';
+    if (unlikely(dmax == 0)) { /* dest has no element that could be written */
         invoke_safe_str_constraint_handler("snwprintf_s: dmax is 0",
                                            (void *)dest, ESZEROL);
         return -(ESZEROL);
